@@ -104,6 +104,7 @@ struct Shape {
     size_t slen, nlen;  // string payload length, name length of the deep field
     size_t blen;        // length of the bytes field of the outer object
     unsigned embed;     // > 0: that bytes field holds a valid Binson object whose bytes field holds a valid object ... this many levels
+    unsigned mix = 0;   // 1: every nested object is the single element of an array: {"a":[{"a":[{...}]}]} (objects as array elements)
 };
 
 // {"a":{"a":...{"a":[[...[ e1, e2, ... ]...]], "z": "<slen>" }...}} ; the innermost array holds `elems` elements cycling int/double/bool/string
@@ -126,6 +127,7 @@ static Value build(const Shape &sh) {
         bool outer = (i + 1 == sh.objs);
         Value o;
         o.k = ref::K_OBJ;
+        if (sh.mix && i >= 1) { Value a; a.k = ref::K_ARR; a.c.push_back(std::move(cur)); cur = std::move(a); }
         cur.has_name = true;
         cur.name = outer ? Bytes(sh.nlen ? sh.nlen : 1, 'a') : Bytes{'a'};
         o.c.push_back(std::move(cur));
@@ -293,6 +295,7 @@ static void scaling_case(Src &s) {
     // which dimensions are scaled, and how far
     uint8_t dims = s.u8();
     if ((dims & 31) == 0) dims |= 1 + s.u8() % 31;
+    base.mix = (dims & 32) ? 1 : 0;
     Shape mid = base, big = base;
     if (dims & 1) { mid.objs = base.objs + 20 + s.u8() % 40; big.objs = 200 + s.u8() % 55; }
     if (dims & 2) { mid.arrs = base.arrs + 20 + s.u8() % 40; big.arrs = 200 + s.u8() % 55; }
@@ -333,7 +336,7 @@ static void scaling_case(Src &s) {
                     big.arrs, big.elems, big.slen, big.nlen, big.blen);
     }
     st.nontrivial(mix(mix(mix(base.objs, base.arrs), mix(big.objs, big.arrs)), mix(mix(big.elems, big.slen), dims)));
-    st.label(fmt("scaled:%s%s%s%s%s", dims & 1 ? "objects " : "", dims & 2 ? "arrays " : "", dims & 4 ? "elements " : "", dims & 8 ? "payload/name-length " : "", dims & 16 ? "embedded-documents" : ""));
+    st.label(fmt("scaled:%s%s%s%s%s", dims & 1 ? "objects " : "", dims & 2 ? "arrays " : "", dims & 4 ? "elements " : "", dims & 8 ? "payload/name-length " : "", dims & 16 ? "embedded-documents" : "") + (base.mix ? " objects-in-arrays" : ""));
     if (st.want_sample("scaling", 2))
         st.sample("scaling", fmt("base objs %u arrs %u elems %u slen %zu nlen %zu -> big objs %u arrs %u elems %u slen %zu nlen %zu; verify stack %zu/%zu/%zu B", base.objs, base.arrs,
                                  base.elems, base.slen, base.nlen, big.objs, big.arrs, big.elems, big.slen, big.nlen, mb.hw[E_VERIFY], mm.hw[E_VERIFY], mg.hw[E_VERIFY]));
